@@ -56,7 +56,8 @@ class UnicodeForPython3(str):
         return self.value == other or self.value.decode("utf-8") == other
 
     def __hash__(self) -> int:
-        return id(self.value)
+        # equal strings must hash alike, or a set/dict of them keeps duplicates
+        return hash(self.value)
 
     def __repr__(self) -> str:
         r"""
